@@ -233,6 +233,8 @@ func (e StdEng) reduce(
 
 		retVal = a
 		dimsReduced := 0
+		// the axes belong to the caller: sort a copy
+		along = append([]int(nil), along...)
 		sort.Slice(along, func(i, j int) bool { return along[i] < along[j] })
 
 		for _, axis := range along {
